@@ -689,7 +689,10 @@ def run(tier, seed, replay=None):
         "model = coq/Model/Cas.v; tie = python generator + harness/src/bin/c20.rs (real echo-cas MemoryTier, DiskTier in "
         "/tmp/C20-*, RetainedBlobIndex) + vm_compute of the model with H := table of the real BLAKE3 values of every hashed byte string",
         "filesystem failures (DiskTierError::Io/InvalidBlobPath), usize overflow of byte_count and real crash/fsync "
-        "durability are outside the model; wsc/store.rs export profiles are exercised by the oracle only (kind=exp), not modelled",
+        "durability are outside the model; of wsc/store.rs only the material validation of the self-contained and CAS-addressed "
+        "profiles is modelled (record level: sc_check / cas_check); the ref-only profile, WSC envelope codec, projection-graph "
+        "comparison, causal-anchor checks and WAL segment recovery are exercised by the harness oracle only",
+        "hashes enter the model as ranks (monotone injection of the real BLAKE3 values occurring in the case): the model only compares hashes",
     ]
     r.cov["trusted_base"] = ["coqc 8.16.1 kernel + vm_compute", "python generator/renderer props/c20.py",
                              "harness c20.rs (abstraction: probe of get/is_pinned over the case's hash universe, directory scan)",
@@ -701,19 +704,20 @@ def run(tier, seed, replay=None):
     else:
         cases = [parse_case(l) for l in vf.load_corpus(PROP)]
         q = tier == "quick"
-        for i in range(150 if q else 2500):
+        for i in range(130 if q else 1500):
             cases.append(gen_mem(r.rng, big=(i % 10 == 9)))
-        for i in range(150 if q else 2500):
+        for i in range(130 if q else 1500):
             cases.append(gen_disk(r.rng, big=(i % 10 == 9)))
-        for i in range(40 if q else 600):
+        for i in range(30 if q else 400):
             cases.append(gen_disk_every_file(r.rng))
-        for i in range(150 if q else 2500):
+        for i in range(130 if q else 1500):
             cases.append(gen_idx(r.rng, big=(i % 10 == 9)))
-        for i in range(60 if q else 800):
+        for i in range(40 if q else 300):
             cases.append(gen_exp(r.rng))
         cases += list(exhaustive("mem", 2)) + list(exhaustive("disk", 2))
         if not q:
-            cases += list(exhaustive("mem", 4)) + list(exhaustive("disk", 4))
+            # exhaustive small universes: every op sequence of length 3 and 4 (memory) / 3 (disk) over the alphabet
+            cases += list(exhaustive("mem", 3)) + list(exhaustive("mem", 4)) + list(exhaustive("disk", 3))
     try:
         bins = vf.cargo_build(["c20", "vfhash"])
         r.phase("P3_build", ok=True)
@@ -809,3 +813,33 @@ def run(tier, seed, replay=None):
     r.phase("P4_correspondence", cases=len(cases), differing=len(bad))
     r.phase("P5_oracle", failing=sum(1 for o in oracle if o != "ok"))
     return r.finish()
+
+
+MANIFEST = {
+    "category": "proof",
+    "text": ("Coq theorems (no axioms, hash = arbitrary function H, binding statements conclude `\\/ Collision H`) over an executable model "
+             "of echo-cas MemoryTier (blobs + pins + exact byte accounting + advisory budget), DiskTier (one file per hash whose content "
+             "is an arbitrary byte string, process-local pins, reopen, environment write/delete faults), RetainedBlobIndex (retain / load / "
+             "load_range / load_by_hash over a MemoryTier, store replacement) and, at record level, the material validation of the "
+             "self-contained and CAS-addressed wsc export profiles. Proved: every get returns bytes hashing to the key or nothing (memory: "
+             "after any op sequence; disk: for any file state), invariant by induction over arbitrary op sequences (entries hash to their "
+             "key, byte_count = sum of sizes), refinement to the set of offered byte strings (sound + complete up to Collision), get-after-"
+             "put, put_verified rejects every mismatch with the store unchanged, put/put_verified idempotent, erasing all pin/unpin ops "
+             "changes no content/accounting/result, reopen preserves content and drops pins, corrupted file => HashMismatch or Collision, "
+             "deleted file => absent, faults are local to their key; index entry and load(c) are determined by the first retain at c alone "
+             "(no aliasing), equal content idempotent, different content rejected or Collision, load_range is a bounded slice; accepted "
+             "imports have every referenced blob/payload intact, withheld or corrupt material is an obstruction (or Collision), intact "
+             "material is accepted (round trip, partial). Tie: generated + structured (corrupt/repair/delete every stored file) + exhaustive-"
+             "small op sequences run through the real crates (DiskTier on real files under /tmp) and through the model under vm_compute with "
+             "the real BLAKE3 values supplied as data; canonical result lines compared; an implementation-side reference-map oracle checks "
+             "the property on every case; real WAL segments + record sets go through all three export profiles with every referenced blob "
+             "individually withheld/corrupted/resized."),
+    "note": ("Trusted: Coq kernel + vm_compute; python generator/renderer props/c20.py (incl. rank renaming of hashes and its replay of the "
+             "export-variant control flow); harness c20.rs (probe-based state dump, directory scan, reference-map oracle); blake3 crate. "
+             "Modelled rather than verified: memory.rs, disk.rs, retention.rs as Gallina functions; filesystem errors, usize overflow, "
+             "fsync/rename durability are outside the model. wsc/store.rs (5k lines) is modelled only for retained/segment material "
+             "validation (sc_check, cas_check); ref-only profile, WSC envelope codec, projection comparison, causal-anchor validation and "
+             "WAL segment recovery are oracle-only. export_import_roundtrip_*_partial are stated given canonicalisation succeeds and the "
+             "reference set equals the present records. Finding fixed during the build: MemoryTier::put_verified accepted mismatching "
+             "bytes on an already stored key (repo commit bc954b7); oracle signature mem-put-verified-present-skips-verification guards it."),
+}
